@@ -360,9 +360,9 @@ Proof. intros H. rewrite (nth_indep _ VUnset (v_strs [])) by (rewrite map_length
 (** reduction of the interpreter's own functions only: arithmetic, comparisons, [wrap],
     [in_bounds], list functions on symbolic data stay folded *)
 Ltac ev :=
-  cbn [eval evals ebind slice_from_val slice_range_val be_val nth_error binop_val binop_int binop_str binop_bool is_nilish
+  cbn [eval evals ebind slice_from_val slice_range_val be_val has_val nth_error binop_val binop_int binop_str binop_bool is_nilish
        items_of set_opt upd get nth assign_all assign1 loop_ctl Nat.eqb call_result ret_of
-       wp_items f_nparams f_nvars f_outs f_body byte_val map negb Bool.eqb orb].
+       wp_items f_nparams f_nvars f_outs f_body byte_val map negb Bool.eqb orb andb].
 
 (** [start_func go_f]: from [exists fuel, run_func fuel p go_f args = r] to a [wp] goal over the
     translated body with the initial environment computed *)
@@ -403,6 +403,9 @@ Proof. apply map_length. Qed.
 Ltac lens := rewrite ?length_map_VStr, ?length_map_v_strs, ?length_map_v_nat, ?length_map_byte_val in *.
 Ltac side := lens; lia.
 
+Lemma ltb0_false z : 0 <= z -> (z <? 0) = false.
+Proof. intros H. apply Z.ltb_ge. exact H. Qed.
+
 Lemma leb_true a b : (a <= b)%nat -> (a <=? b)%nat = true.
 Proof. apply Nat.leb_le. Qed.
 
@@ -415,6 +418,7 @@ Ltac norm1 :=
     | rewrite wrap_u8 by side
     | rewrite wrap_u64 by side
     | rewrite leb_true by (rewrite ?skipn_length; side)
+    | rewrite ltb0_false by side
     | rewrite length_map_VStr | rewrite length_map_v_strs | rewrite length_map_v_nat
     | rewrite in_bounds_true by side
     | rewrite in_bounds_incl_true by side
@@ -440,6 +444,13 @@ Ltac stepn :=
   | |- wp _ (SCopy _ _) _ _ =>
       first [ eapply wp_copy_list; [evn; reflexivity|ev; reflexivity|ev]
             | eapply wp_copy_str; [evn; reflexivity|ev; reflexivity|ev] ]
+  | |- wp _ (if ?c then _ else _) _ _ =>
+      (* a closed condition: compute it (fails, i.e. stops, on a symbolic one) *)
+      let v := eval vm_compute in c in
+      lazymatch v with
+      | true => change c with true; cbv iota
+      | false => change c with false; cbv iota
+      end
   end.
 Ltac stepsn := repeat stepn.
 
@@ -599,3 +610,19 @@ Lemma bcmp_flags (x y : bytes) :
   | Datatypes.Gt => bgt x y = true /\ blt x y = false
   end.
 Proof. unfold bgt, blt. destruct (bcmp x y); split; reflexivity. Qed.
+
+(** remove every [wrap] whose argument is in range (inner ones first, by backtracking) *)
+Ltac unwrap :=
+  repeat match goal with
+         | |- context [wrap ?k ?z] => rewrite (wrap_id k z) by (cbn [in_kind]; lia)
+         end.
+
+Lemma bgt_as_blt (x y : bytes) : bgt x y = blt y x.
+Proof. unfold bgt, blt. rewrite (bcmp_antisym x y). destruct (bcmp x y); reflexivity. Qed.
+
+Lemma beqb_sym (x y : bytes) : beqb x y = beqb y x.
+Proof. unfold beqb. rewrite (bcmp_antisym x y). destruct (bcmp x y); reflexivity. Qed.
+
+(** [run_with t]: symbolic execution to the leaves, applying the normalisation [t] to the
+    conditions as they appear *)
+Ltac run_with t := repeat first [stepn | progress t | split_if_auto].
